@@ -431,10 +431,20 @@ class RefEval:
     # -- programs
     def run_mod(self, form, args):
         items, _ = f_items(form)
-        if items[0].k != 'sym' or items[0].a != b'mod':
-            raise RefOutside('not a mod form')
         params = items[1]
         body = items[-1]
+        self.load_helpers(form)
+        env = {}
+        self.bind(params, args, env)
+        v = self.eval(body, env)
+        if not isinstance(v, Tree):
+            raise RefOutside('the program returns a function value')
+        return v
+
+    def load_helpers(self, form):
+        items, _ = f_items(form)
+        if items[0].k != 'sym' or items[0].a != b'mod':
+            raise RefOutside('not a mod form')
         for h in items[2:-1]:
             hi, _ = f_items(h)
             kind = hi[0].a
@@ -451,12 +461,6 @@ class RefEval:
                 self.macros[hi[1].a] = (hi[2], hi[3])
             else:
                 raise RefOutside('helper form %s' % kind.decode())
-        env = {}
-        self.bind(params, args, env)
-        v = self.eval(body, env)
-        if not isinstance(v, Tree):
-            raise RefOutside('the program returns a function value')
-        return v
 
 
 def pattern_names(pat):
@@ -479,7 +483,7 @@ def symbols_in(f):
 _ENGINE_KEY = None
 
 
-PHASE1_VERSION = 1        # bump when compile_from_mir changes what it computes
+PHASE1_VERSION = 2        # bump when compile_from_mir changes what it computes
 
 
 def engine_key():
@@ -530,7 +534,28 @@ def compile_from_mir(source, optimize, extra_env=None):
         res.update(end='ok', compiled=tree_to_json(None, out.fields[0], ev))
     else:
         res.update(end='err', compiled=None)
+    try:
+        res['symbols'] = sorted([bytes_of_items(k).decode('latin1'), bytes_of_items(c.v.items).decode('latin1')]
+                                for k, c in [(eng.deref(k_, None), c_) for k_, c_ in box['symtab'].entries])
+    except Exception as e:        # symbol text that is not concrete: reported, never guessed
+        res['symbols'] = None
+        res['symbols_error'] = '%s: %s' % (type(e).__name__, e)
     return res
+
+
+def bytes_of_items(items):
+    if hasattr(items, 'items'):
+        items = items.items
+    out = bytearray()
+    for b in items:
+        if hasattr(b, 'conc'):
+            c = b.conc()
+        else:
+            c = b.c if b.c is not None else concrete(b.e)
+        if c is None:
+            raise ValueError('symbolic byte in symbol table text')
+        out.append(c)
+    return bytes(out)
 
 
 def compiled_program(source, optimize):
@@ -558,7 +583,9 @@ def compiled_program(source, optimize):
     nat = driver.NATIVE.run('compile_text', [dict(case={}, inputs=dict(source=source, optimize=bool(optimize), args=[]))])[0]
     res['native_compiled'] = nat.get('compiled')
     res['native_err'] = nat.get('compile_err')
+    res['native_symbols'] = nat.get('symbols')
     res['agrees'] = (res['compiled'] == nat.get('compiled')) if res['end'] in ('ok', 'err') else False
+    res['symbols_agree'] = res.get('symbols') is not None and [list(x) for x in res['symbols']] == [list(x) for x in (nat.get('symbols') or [])]
     tmp = path + '.%d.tmp' % os.getpid()
     json.dump(res, open(tmp, 'w'))
     os.rename(tmp, path)
@@ -915,3 +942,380 @@ class ClassicBuilds(BuildsAgree):
 
 
 TEMPLATES_CLASSIC = []
+
+
+# ---------------------------------------------------------------- C13: symbol tables
+def sha256tree_json(t, memo=None):
+    if isinstance(t, dict):
+        return hashlib.sha256(b'\x02' + sha256tree_json(t['p'][0]) + sha256tree_json(t['p'][1])).digest()
+    return hashlib.sha256(b'\x01' + bytes(t)).digest()
+
+
+def subtrees(t, out=None):
+    if out is None:
+        out = {}
+    out.setdefault(sha256tree_json(t).hex(), t)
+    if isinstance(t, dict):
+        subtrees(t['p'][0], out)
+        subtrees(t['p'][1], out)
+    return out
+
+
+def form_text(f):
+    """print a parameter list the way the compiler records it"""
+    if f.k == 'nil':
+        return '()'
+    if f.k == 'sym':
+        return f.a.decode()
+    if f.k == 'int':
+        return str(f.a)
+    if f.k == 'str':
+        return '"%s"' % f.a.decode('latin1')
+    items, tail = f_items(f)
+    s = ' '.join(form_text(x) for x in items)
+    if tail.k != 'nil':
+        s += ' . ' + form_text(tail)
+    return '(' + s + ')'
+
+
+def spec_from_params(p, top=True):
+    """an argument shape for a parameter pattern: one symbolic byte per name, a short list for a rest parameter"""
+    if p.k == 'nil':
+        return 'E'
+    if p.k == 'sym':
+        return 'B'
+    items, tail = f_items(p)
+    if items and items[0].k == 'sym' and items[0].a == b'@' and len(items) == 3:
+        return spec_from_params(items[2], False)
+    l = spec_from_params(p.a, False)
+    if p.b.k == 'sym':
+        r = ('list', 'B')
+    else:
+        r = spec_from_params(p.b, False)
+    return [l, r]
+
+
+class SymbolsDescribe(CompileRun):
+    """C13: every symbol-table entry whose key is the tree hash of code in the emitted program names the function that
+    code implements: the extracted code, run on symbolic arguments in the program's own constant environment, returns
+    what calling that function in the source returns; its recorded argument list is the function's; in the unoptimised
+    build every non-inline function has such an entry."""
+    name = 'symbols_describe'
+    prop = 'C13'
+    OPTIONS = {'quick': [('cl21', False)], 'thorough': [('cl21', False), ('cl21', True), ('cl22', False), ('cl23', False)]}
+    assumptions = CompileRun.assumptions + ['the symbol table produced under mirsym is identical to the native build\'s (cross-checked)',
+                                            'functions are extracted from the emitted program by tree hash; the constant environment is the one the emitted program builds, (a (q . MAIN) (c (q . ENV) 1))']
+
+    def functions_of(self, src):
+        form = read_forms(src)[0]
+        items, _ = f_items(form)
+        out = []
+        for h in items[2:-1]:
+            hi, _ = f_items(h)
+            if hi[0].a in (b'defun', b'defun-inline'):
+                out.append((hi[1].a.decode(), hi[0].a == b'defun-inline', hi[2], hi[3]))
+        return form, out
+
+    def cases(self, tier):
+        for name, src, specs, (sig, optimize) in self.templates(tier):
+            text = src.replace('{S}', SIGILS[sig])
+            for fname, inline, params, body in self.functions_of(text)[1]:
+                if not inline:
+                    yield dict(t=name, sigil=sig, opt=optimize, fn=fname)
+
+    def fn_info(self, case):
+        for name, src, specs in TEMPLATES + TEMPLATES_23:
+            if name == case['t']:
+                text = src.replace('{S}', SIGILS[case['sigil']])
+                form, fns = self.functions_of(text)
+                for fname, inline, params, body in fns:
+                    if fname == case['fn']:
+                        return text, form, params, body
+        raise KeyError(case)
+
+    def sym_inputs(self, case):
+        text, form, params, body = self.fn_info(case)
+        return dict(b=sym_bytes('a', arg_bytes(spec_from_params(params))))
+
+    def run(self, eng, case, inp):
+        text, form, params, body = self.fn_info(case)
+        cp = compiled_program(text, case['opt'])
+        for k, v in cp.get('functions', {}).items():
+            eng.encoded.setdefault(k, v)
+        if cp['end'] != 'ok' or not cp['agrees'] or not cp.get('symbols_agree'):
+            raise Unsupported('compilation under mirsym: end=%s agrees=%s symbols_agree=%s %s' % (cp['end'], cp.get('agrees'), cp.get('symbols_agree'), cp.get('symbols_error', '')))
+        prog = cp['compiled']
+        subs = subtrees(prog)
+        syms = dict((k, v) for k, v in cp['symbols'])
+        entries = [(k, v) for k, v in syms.items() if len(k) == 64 and k in subs]
+        mine = [(k, v) for k, v in entries if v == case['fn']]
+        out = dict(entries=entries, mine=mine, optimised=bool(case['opt']) or case['sigil'] not in ('cl21',), args_text=None)
+        if not mine:
+            return out
+        key = mine[0][0]
+        out['args_text'] = syms.get(key + '_arguments')
+        out['want_args_text'] = form_text(params)
+        # the program's constant environment
+        try:
+            left = prog['p'][1]['p'][1]['p'][0]['p'][1]['p'][0]['p'][1]
+        except (KeyError, TypeError, IndexError):
+            raise Unsupported('emitted program is not of the form (a (q . MAIN) (c (q . ENV) 1))')
+        eng.env['tls'] = tls(True)
+        alloc = Ref(Cell(Struct('Allocator', [])))
+        dialect = Ref(Cell(Struct('ChiaDialect', [mkint(0x0102, 'u32')])))
+        args = arg_tree(spec_from_params(params), iter(inp['b']))
+        ref = RefEval(eng, alloc, dialect)
+        ref.load_helpers(form)
+        try:
+            out['want'] = ref.call(params, body, args, {})
+        except RefFail as e:
+            out['ref_fail'] = str(e)
+            return out
+        except RefOutside as e:
+            raise Unsupported('reference evaluator: %s' % e)
+        env = pair_node(tree_from_json(left), args)
+        out['got'] = eng.call('run_program::run_program', [alloc, dialect, tree_from_json(subs[key]), env, mkint(0, 'u64')])
+        return out
+
+    def obligations(self, eng, case, inp, out):
+        obs = []
+        names = set(n for n, _, _, _ in self.functions_of(self.fn_info(case)[0])[1])
+        for k, v in out['entries']:
+            obs.append(('entry_names_a_function_of_the_source', z3.BoolVal(v in names)))
+        if not out['mine']:
+            if not out['optimised']:
+                obs.append(('unoptimised_build_has_an_entry_for_every_function', z3.BoolVal(False)))
+            return obs
+        obs.append(('recorded_argument_list_is_the_functions', z3.BoolVal(out['args_text'] == out['want_args_text'])))
+        if 'want' in out:
+            g = out['got']
+            if g.variant != 'Ok':
+                obs.append(('extracted_code_returns_a_value', z3.BoolVal(False)))
+            else:
+                obs.append(('extracted_code_computes_the_named_function', tree_eq(g.fields[0].fields[1], out['want'])))
+        return obs
+
+    def output_json(self, eng, case, inp, out, model):
+        d = dict(entries=out['entries'], mine=out['mine'], args_text=out.get('args_text'))
+        if 'want' in out:
+            d['want'] = tree_to_json(model, out['want'], ev)
+            g = out['got']
+            d['got'] = tree_to_json(model, g.fields[0].fields[1], ev) if g.variant == 'Ok' else None
+        return d
+
+    def native_inputs_pred(self, case, j, predicted):
+        text, form, params, body = self.fn_info(case)
+        d = dict(source=text, optimize=case['opt'], fn=case['fn'], fn_args=arg_json(spec_from_params(params), iter(j['b'])),
+                 fn_args_text=form_text(params))
+        if isinstance(predicted, dict) and 'want' in predicted:
+            d['expect'] = predicted['want']
+        return d
+
+    def native_matches(self, case, j, native, predicted):
+        if not isinstance(predicted, dict) or 'want' not in predicted:
+            return True
+        return native.get('fn_result', {}).get('ok') == predicted.get('got')
+
+    def is_violation(self, case, j, native):
+        return native.get('fn_matches_expect') is False or native.get('fn_entry') is False or native.get('fn_args_ok') is False
+
+    def oracle(self, case, j):
+        return 'calling the named function in the source (RefEval) on the same arguments; the function\'s parameter list'
+
+    def witness_classes(self, case, inp, out):
+        return [('value', z3.BoolVal('want' in out)), ('source_fails', z3.BoolVal('ref_fail' in out))]
+
+
+# ---------------------------------------------------------------- C17: the unused-argument check
+UNUSED_TEMPLATES = [
+    ('plain', '(mod (u v w) {S} (+ u w))', ['u', 'v', 'w']),
+    ('dropped_by_function', '(mod (u v) {S} (defun F (x y) (* x 2)) (F u v))', ['u', 'v']),
+    ('both_used', '(mod (u v) {S} (if u v 1))', ['u', 'v']),
+    ('shadowed', '(mod (u v) {S} (let ((v 5)) (+ u v)))', ['u', 'v']),
+    ('dropped_by_inline', '(mod (u v w) {S} (defun-inline G (p q) (c p ())) (G u (+ v w)))', ['u', 'v', 'w']),
+    ('dead_branch', '(mod (u v) {S} (defun F (x y) (if 1 x y)) (F u v))', ['u', 'v']),
+    ('used_in_condition', '(mod (u v w) {S} (if v u u))', ['u', 'v', 'w']),
+    ('used_through_list', '(mod (u v w) {S} (defun H (z) (f (r z))) (H (list u v)))', ['u', 'v', 'w']),
+    ('destructured', '(mod ((u v) w) {S} (+ u w))', ['u', 'v', 'w']),
+    # a parameter spelled like an operator and used in operator position: the compiler calls the parameter, the check
+    # reads the operator (known finding, see DESIGN.md)
+    ('operator_named', '(mod (a b c) {S} (defun-inline G (p q) (c p ())) (G a (+ b c)))', ['a', 'b', 'c']),
+]
+
+
+def unused_from_mir(source):
+    from mirsym import driver
+    fs, key, roots = driver.funcs(True)
+    eng = Engine(fs, roots, bigw=264, loop_bound=200000, query_timeout_ms=20000)
+
+    def run(e):
+        e.env['tls'] = tls(True)
+        e.env['exact_fmt'] = True
+        name = slice_of(conc_bytes(list(b'*t*')))
+        opts = e.call('DefaultCompilerOpts::new', [name])
+        return e.call('clvm_tools::debug::check_unused', [Cell(opts, 'rc'), slice_of(conc_bytes(list(source.encode())))])
+    t0 = time.time()
+    outs = list(eng.explore(run, max_paths=2))
+    res = dict(wall_s=round(time.time() - t0, 1), functions=dict(eng.encoded))
+    if len(outs) != 1 or outs[0][0] != 'done':
+        res.update(end=outs[0][0] if outs else 'none', msg=str(outs[0][2])[:800] if outs else '', unused=None)
+        return res
+    out = outs[0][2]
+    if out.variant != 'Ok':
+        res.update(end='err', unused=None)
+        return res
+    text = bytes_of_items(out.fields[0].fields[1]).decode('latin1')
+    res.update(end='ok', unused=sorted(l[3:] for l in text.split('\n') if l.startswith(' - ')), text=text)
+    return res
+
+
+def unused_report(source):
+    from mirsym import driver
+    fs, key, roots = driver.funcs(True)
+    top = os.path.join(ROOT, '.cache', 'compiled')
+    d = os.path.join(top, '%s-%s' % (key[:12], engine_key()))
+    os.makedirs(d, exist_ok=True)
+    path = os.path.join(d, 'unused-' + hashlib.sha256(source.encode()).hexdigest()[:24] + '.json')
+    if os.path.exists(path):
+        try:
+            return json.load(open(path))
+        except Exception:
+            pass
+    res = unused_from_mir(source)
+    nat = driver.NATIVE.run('check_unused', [dict(case={}, inputs=dict(source=source))])[0]
+    res['native_unused'] = nat.get('unused')
+    res['agrees'] = res.get('unused') is not None and res['unused'] == nat.get('unused')
+    res['source'] = source
+    tmp = path + '.%d.tmp' % os.getpid()
+    json.dump(res, open(tmp, 'w'))
+    os.rename(tmp, path)
+    return res
+
+
+class UnusedReallyUnused(CompileRun):
+    """C17: a parameter the unused-argument check reports cannot influence the compiled program: two runs whose arguments
+    differ only in that parameter (in value and in shape) both fail or both return the identical value"""
+    name = 'unused_really_unused'
+    prop = 'C17'
+    functions = ['clvm_tools::debug::check_unused', 'frontend', 'usecheck::check_parameters_used_compileform', 'Evaluator::{new, mash_conditions, shrink_bodyform, ...}',
+                 'clvmc::compile_clvm_text_maybe_opt (for the program that is run)', 'clvmr run_program (MIR)']
+    assumptions = ['the program text is one of the stated templates (concrete); the check\'s report computed under mirsym must equal the native build\'s report',
+                   'for every reported parameter: all other parameters share one symbolic byte each between the two runs, the reported parameter gets independent values of the shapes atom/atom, nil/atom, atom/pair']
+    outside = 'programs other than the templates; parameters with upper-case names (not checked by the tool)'
+    SHAPES = [('B', 'B'), ('E', 'B'), ('B', ['B', 'B'])]
+    classes = {'parameter_shadows_operator': lambda case, inp: z3.BoolVal(case['t'] == 'operator_named')}
+
+    def cases(self, tier):
+        for name, src, params in UNUSED_TEMPLATES:
+            for p in params:
+                for k in range(len(self.SHAPES)):
+                    yield dict(t=name, p=p, shape=k)
+
+    def tmpl(self, case):
+        for name, src, params in UNUSED_TEMPLATES:
+            if name == case['t']:
+                return src.replace('{S}', SIGILS['cl21']), params
+        raise KeyError(case['t'])
+
+    def layout(self, case):
+        """-> (mod parameter form, per-name spec for run 1, for run 2)"""
+        src, params = self.tmpl(case)
+        form = read_forms(src)[0]
+        pform = f_items(form)[0][1]
+        s1 = {n: 'B' for n in params}
+        s2 = dict(s1)
+        s1[case['p']], s2[case['p']] = self.SHAPES[case['shape']]
+        return pform, params, s1, s2
+
+    def sym_inputs(self, case):
+        pform, params, s1, s2 = self.layout(case)
+        return dict(shared=sym_bytes('s', len(params)), p1=sym_bytes('p', arg_bytes(s1[case['p']])), p2=sym_bytes('q', arg_bytes(s2[case['p']])))
+
+    def conc_inputs(self, case, j):
+        return dict(shared=conc_bytes(j['shared']), p1=conc_bytes(j['p1']), p2=conc_bytes(j['p2']))
+
+    def inputs_json(self, case, inp, model):
+        return dict(shared=[ev(model, x.e) for x in inp['shared']], p1=[ev(model, x.e) for x in inp['p1']], p2=[ev(model, x.e) for x in inp['p2']])
+
+    def build_args(self, case, shared, pvals, spec, as_json=False):
+        pform, params, s1, s2 = self.layout(case)
+
+        def go(f):
+            if f.k == 'nil':
+                return [] if as_json else nil_node()
+            if f.k == 'sym':
+                nm = f.a.decode()
+                if nm == case['p']:
+                    return arg_json(spec, iter(pvals)) if as_json else arg_tree(spec, iter(pvals))
+                b = shared[params.index(nm)]
+                return [b] if as_json else atom_node([b])
+            l, r = go(f.a), go(f.b)
+            return {'p': [l, r]} if as_json else pair_node(l, r)
+        return go(pform)
+
+    def run(self, eng, case, inp):
+        src, params = self.tmpl(case)
+        rep = unused_report(src)
+        for k, v in rep.get('functions', {}).items():
+            eng.encoded.setdefault(k, v)
+        if rep['end'] != 'ok' or not rep['agrees']:
+            raise Unsupported('check_unused under mirsym: end=%s mirsym=%s native=%s %s' % (rep['end'], rep.get('unused'), rep.get('native_unused'), rep.get('msg', '')))
+        if case['p'] not in rep['unused']:
+            return dict(reported=False)
+        cp = compiled_program(src, False)
+        if cp['end'] != 'ok' or not cp['agrees']:
+            raise Unsupported('compilation under mirsym: %s' % cp['end'])
+        eng.env['tls'] = tls(True)
+        alloc = Ref(Cell(Struct('Allocator', [])))
+        dialect = Ref(Cell(Struct('ChiaDialect', [mkint(0x0102, 'u32')])))
+        pform, params_, s1, s2 = self.layout(case)
+        a1 = self.build_args(case, inp['shared'], inp['p1'], s1[case['p']])
+        a2 = self.build_args(case, inp['shared'], inp['p2'], s2[case['p']])
+        prog = tree_from_json(cp['compiled'])
+        r1 = eng.call('run_program::run_program', [alloc, dialect, prog, a1, mkint(0, 'u64')])
+        r2 = eng.call('run_program::run_program', [alloc, dialect, prog, a2, mkint(0, 'u64')])
+        return dict(reported=True, r1=r1, r2=r2)
+
+    def obligations(self, eng, case, inp, out):
+        if not out['reported']:
+            return []
+        r1, r2 = out['r1'], out['r2']
+        if (r1.variant == 'Ok') != (r2.variant == 'Ok'):
+            return [('both_runs_fail_or_both_return', z3.BoolVal(False))]
+        if r1.variant != 'Ok':
+            return [('both_runs_fail_or_both_return', z3.BoolVal(True))]
+        return [('both_runs_return_the_same_value', tree_eq(r1.fields[0].fields[1], r2.fields[0].fields[1]))]
+
+    def output_json(self, eng, case, inp, out, model):
+        if not out['reported']:
+            return dict(reported=False)
+        return dict(reported=True, res=[tree_to_json(model, r.fields[0].fields[1], ev) if r.variant == 'Ok' else None for r in (out['r1'], out['r2'])])
+
+    def native_inputs_pred(self, case, j, predicted):
+        src, params = self.tmpl(case)
+        pform, params_, s1, s2 = self.layout(case)
+        return dict(source=src, optimize=False, args=self.build_args(case, j['shared'], j['p1'], s1[case['p']], True),
+                    args_b=self.build_args(case, j['shared'], j['p2'], s2[case['p']], True), param=case['p'])
+
+    def native_inputs(self, case, j):
+        return self.native_inputs_pred(case, j, None)
+
+    def native_matches(self, case, j, native, predicted):
+        if not isinstance(predicted, dict) or not predicted.get('reported'):
+            return True
+        got = [native.get('result', {}).get('ok'), native.get('result_args_b', {}).get('ok')]
+        return got == predicted['res']
+
+    def is_violation(self, case, j, native):
+        if not native.get('param_reported_unused'):
+            return False
+        return native.get('result') != native.get('result_args_b')
+
+    def oracle(self, case, j):
+        return 'the same compiled program on arguments that differ only in the reported parameter'
+
+    def witness_classes(self, case, inp, out):
+        return [('reported', z3.BoolVal(out['reported'])), ('not_reported', z3.BoolVal(not out['reported']))]
+
+    def required_witnesses(self, tier):
+        return ['reported', 'not_reported']
